@@ -22,12 +22,5 @@ theorem T5_roots : ["*Connect.WriteTo", "*ConnAck.WriteTo", "*Publish.WriteTo", 
 itself or was handed as the `io.Writer` -/
 theorem T5_read_only : Facts.readOnlyWrites = [] := by decide
 
-/-- ReadPacket writes only what it allocates and its own reader -/
-theorem T5_read_packet : Facts.readPacketWrites = [] := by decide
-
-/-- no exported operation at all writes through a package-level variable (`mqtt5`, `typeNames`, …);
-`_LEN` is never assigned, so it is nil and nothing can be written through it -/
-theorem T5_globals : Facts.globalWrites = [] ∧ Facts.neverAssigned.contains "_LEN" = true := by decide
-
 
 end Mq.Tie
